@@ -20,7 +20,7 @@ func init() {
 		Level: "exploration",
 		Rule: "a run = 1-8 ammo entries (uri or http/json; unique tags or none; drawn paths) x 1-2 passes fired by 1-6 instances of the real http or connect gun through the real engine at a byte-level scripted peer on the simulated network; per entry the tape draws the peer's behaviour: any status 200-599 and 999 with bodies of several sizes, " +
 			"or (fault batch) close / reset before, inside the headers or inside the body, garbage, bad chunking, bad version, negative Content-Length, no response until the client's timeout, 100-continue, HTTP/1.0 close-delimited bodies, huge bodies and headers, plus refused and timed-out connects; auto-tag settings are drawn; " +
-			"oracle over the recording aggregator: one sample per fired request, proto code = status the peer sent (0 without a response), net code 0 iff the exchange completed, 110 for timeouts, tag per the documented rule, ids unique; non-trivial = at least two instances shot concurrently or a fault fired; distinct = distinct schedule-trace hash",
+			"oracle over the recording aggregator: one sample per fired request, proto code = status the peer sent (0 without a response), net code 0 iff the exchange completed, 110 for timeouts, tag per the documented rule, ids unique; further modes: the grpc and grpc/scenario guns against all 17 status codes (documented mapping table), and the http/scenario gun on the generated descriptions of C15 (one sample per executed step tagged <scenario>.<step>, the failing step carrying the failure); non-trivial = at least two instances shot concurrently or a fault fired; distinct = distinct schedule-trace hash",
 		Components: map[string]string{
 			"components/guns/http (BaseGun, http and connect guns)": "real", "components/providers/http": "real", "core/aggregator/netsample (sample, errno extraction)": "real", "core/engine": "real",
 			"net/http client transport": "real (stdlib, un-yielded)", "target": "byte-level scripted peer in the bubble", "network": "simulated (simnet: latency, segmentation, refused / delayed connects, resets)", "aggregator": "recording stub", "clock": "simulated",
@@ -31,6 +31,10 @@ func init() {
 func runC10(r *R) {
 	if (r.Mode == "" && r.W.Draw(4) == 0) || r.Mode == "grpc" {
 		c10GRPC(r)
+		return
+	}
+	if (r.Mode == "" && r.W.Draw(6) == 0) || r.Mode == "scenario" {
+		c10Scenario(r)
 		return
 	}
 	faults := r.F.Biased(2, 1, 2) == 1
@@ -350,6 +354,25 @@ func c10GRPC(r *R) {
 	for t, ss := range byTag {
 		if !known[t] {
 			r.Fail("grpc/tag", "%d samples carry tag %q; the entries produce %v", len(ss), t, out.TagOf)
+		}
+	}
+}
+
+// ---- http/scenario clause: one sample per executed step, tagged <scenario>.<step>; the failing step carries the failure ----
+
+// c10Scenario runs the scenario workload of C15 (generated descriptions, scripted target with failing answers) and
+// judges it with the per-step sample oracle only: the other clauses of that workload belong to C15.
+func c10Scenario(r *R) {
+	child := &R{Prop: "C15", Tier: r.Tier, Seed: r.Seed, Tape: r.Tape, W: r.W, F: r.F, T: r.T, notes: r.notes, faults: r.faults, TraceFull: r.TraceFull}
+	registry["C15"].Run(child)
+	r.sims = append(r.sims, child.sims...)
+	r.nontrivial = child.nontrivial
+	r.Sample(map[string]any{"mode": "scenario", "workload_of": "C15", "workload": child.sample})
+	r.Note("mode:scenario")
+	for _, v := range child.Viol {
+		sig := strings.TrimPrefix(v.Sig, "C15/")
+		if strings.HasPrefix(sig, "samples") || strings.HasPrefix(sig, "CRASH") || strings.HasPrefix(sig, "run-never-ends") {
+			r.Fail("scenario/"+sig, "%s", v.Detail)
 		}
 	}
 }
